@@ -946,7 +946,17 @@ impl Join {
         let max = if left || right {
             left_size_max.max(right_size_max)
         } else {
-            left_size_max.saturating_mul(right_size_max)
+            // Outer joins also return the rows without a match
+            match operator {
+                JoinOperator::LeftOuter(_) => left_size_max.saturating_mul(right_size_max.max(1)),
+                JoinOperator::RightOuter(_) => left_size_max.max(1).saturating_mul(right_size_max),
+                JoinOperator::FullOuter(_) => left_size_max
+                    .saturating_mul(right_size_max)
+                    .max(left_size_max.saturating_add(right_size_max)),
+                JoinOperator::Inner(_) | JoinOperator::Cross => {
+                    left_size_max.saturating_mul(right_size_max)
+                }
+            }
         };
         Integer::from_interval(0, max)
     }
